@@ -1,9 +1,10 @@
+pub mod c05;
 pub mod c11;
 
 use crate::sup::PropDef;
 
 pub fn all() -> Vec<&'static PropDef> {
-  vec![&c11::DEF]
+  vec![&c05::DEF, &c11::DEF]
 }
 
 pub fn find(id: &str) -> Option<&'static PropDef> {
